@@ -353,6 +353,9 @@ def _run_chunk(binary, workload, seed, lo, hi, tier, extra, rundir, tag, timeout
         if reason1:
             sig = "hang:no_result_in_isolation_within_generous_limit"
             out["aborts"].append({"case": k, "sig": sig, "stderr": tail1, "rc": None})
+        elif rc1 == 101 and tail1 and "HARNESS PANIC" in tail1[-1]:
+            # the harness itself panicked outside catch_unwind: a defect of the machinery, never a verdict
+            out["incidents"].append({"case": k, "what": "harness panic: " + tail1[-1][:300], "stderr": tail1})
         elif rc1 != 0:
             sig = "abort:" + _classify_abort(rc1, tail1)
             out["aborts"].append({"case": k, "sig": sig, "stderr": tail1, "rc": rc1})
